@@ -20,6 +20,7 @@ import (
 	"os"
 	"strconv"
 	"sync"
+	"sync/atomic"
 	"testing"
 	"time"
 
@@ -354,6 +355,8 @@ func TestVerifC02Chain(t *testing.T) {
 	defer m.Done()
 	n := vk.N(60, 1500)
 	c02RunBatches(m, 0, n, 6, false)
+	m.Count("route_groups_registered_via_AddRoute", atomic.LoadInt64(&c02AddRouteGroups))
+	m.Count("user_middleware_calls", atomic.LoadInt64(&c02UserMiddlewareCalls))
 	c02ErrModeBatches(m, n, vk.N(2, 20), false)
 }
 
